@@ -571,7 +571,7 @@ theorem k_precision_compute_macro (tp a b : List Q) (h1 : tp.length = a.length) 
     tx_eval
     rw [xmean_congr _ _ (fun r => divNan0 r.1 (r.1 + r.2.1)) (fun r hr => nanToNum_xdiv _ _ (hrow' r (List.mem_filter.mp hr).1))]
     simp only [precisionCompute, qcmp_ne_zero, qcmp, List.zip_map', Prod.eta, List.map_id', Bool.not_not]
-    first | done | rfl
+    first | done | rfl | (simp only [Bool.or_comm]; first | done | rfl)
 
 /-- `average=None`: one ratio per class (`nan ↦ 0`). -/
 theorem k_precision_compute_none (tp a b : List Q) (h1 : tp.length = a.length) (h2 : a.length = b.length)
@@ -611,7 +611,7 @@ theorem k_precision_compute_weighted (tp a b : List Q) (h1 : tp.length = a.lengt
     refine ⟨_, ?_, rfl⟩
     simp only [precisionCompute, qcmp_ne_zero, qcmp, List.zip_map', Prod.eta, List.map_id', list_ite, Bool.not_not,
       List.map_map, Function.comp_def]
-    first | done | rfl
+    first | done | rfl | (simp only [Bool.or_comm]; first | done | rfl)
 
 /-- `average="macro"`: the mean of `tp / labels` (`0` where undefined) over the present classes; a class without labels has no true positive. -/
 theorem k_recall_compute_macro (tp a b : List Q) (h1 : tp.length = a.length) (h2 : a.length = b.length)
